@@ -116,9 +116,9 @@ NUM_CARRIERS = ["sub_both", "sub_both2", "assign", "assign_elem", "sub_rhs", "su
                 "dev_hcircle", "dev_poke", "read_sub", "input_sub", "loop_body", "jump_target", "two_statements", "width",
                 "assign_raw", "assign_elem_raw", "print_raw", "print_item_raw", "print_at_raw", "print_last_raw", "print_many",
                 "varptr_sub", "varptr_sub2", "if_nested_false", "if_nested_true", "if_nested_deep",
-                "for_limit_step", "for_all_three", "poke_fast", "poke_slow", "poke_fast_hex"]
+                "for_limit_step", "for_all_three", "poke_fast", "poke_slow", "poke_fast_hex", "assign_self", "assign_self_elem"]
 STR_CARRIERS = ["assign_s", "assign_elem_s", "print_item_s", "print_at_item_s", "if_s_noelse", "if_s_else", "dev_hprint",
-                "dev_hdraw", "loop_body_s", "len_assign"]
+                "dev_hdraw", "loop_body_s", "len_assign", "assign_self_s"]
 
 
 def carrier(name, e):
@@ -148,6 +148,15 @@ def carrier(name, e):
         return one([("let", ("var", "VP"), ("fn", "VARPTR", [("arr", "X", [("bin", "AND", e, n(7))])]), False)])
     if name == "varptr_sub2":
         return one([("let", ("var", "VP"), ("fn", "VARPTR", [("arr", "Z", [("bin", "+", ("bin", "AND", e, n(3)), n(1)), F("BUTTON", n(0))])]), False)])
+    if name == "assign_self":
+        # the target is read inside the converted call that is assigned to it, next to the nested calls
+        return one([("let", A, F("INT", ("bin", "+", A, e)), False), ("let", R, A, False)])
+    if name == "assign_self_elem":
+        y2 = ("arr", "Y", [n(2)])
+        return one([("let", y2, n(4), False), ("let", y2, F("INT", ("bin", "+", ("bin", "/", y2, n(8)), e)), False)])
+    if name == "assign_self_s":
+        a_s = ("var", "A$")
+        return one([("let", a_s, F("STRING$", ("bin", "-", F("LEN", a_s), n(3)), ("bin", "+", e, a_s)), False), ("let", RS, a_s, False)])
     if name == "assign":
         return one([("let", R, e, False)])
     if name == "assign_elem":
